@@ -42,6 +42,26 @@ func init() {
 		},
 	})
 	regProp(&propDef{
+		id:   "C16",
+		gen:  func(seed uint64, th bool) *Plan { return genRacePlan(seed, th) },
+		chk:  newRaceChecker,
+		race: true,
+		rule: "2-5 connections run data commands, transactions, WATCH, blocking commands, introspection (CLIENT LIST/INFO/ID/GETNAME/SETNAME, INFO, DBSIZE, COMMAND COUNT/LIST), SELECT, HELLO, CLIENT UNBLOCK, FLUSHDB, reconnects and closes, half of the runs with a persist path (periodic saver) and a terminate/wait at the end; the emulator is built with -race and driven by the same seeded scheduler; a violation is a race report whose two access stacks both lie in emulator code and were not reached through the verif-only inspection helpers; non-trivial = at least 2 connections executed commands and at least one introspection, lifecycle or saver event happened; distinct = distinct scheduler event sequence",
+		nontrivial: func(res *RunResult) bool {
+			return res.Stats.Replies >= 4
+		},
+		quickRuns:       1200,
+		thoroughRuns:    100000,
+		quickSeconds:    75,
+		thoroughSeconds: 900,
+		level:           "exploration",
+		explanation:     "The race detector is happens-before based: a pair is reported whenever both accesses occur in a run and no synchronisation of the program orders them. The simulator's own hand-offs are invisible to it (park/release run under runtime.RaceDisable, scheduler state lives in //go:norace code), so serialising the goroutines does not hide races; a self-test (bin/check selftest-race) plants an unsynchronised global and requires a report.",
+		assumptions: []string{
+			"Go race detector semantics (dynamic happens-before, bounded shadow history)",
+			"race reports that involve verif-only inspection code (sim_inspect.go) or only harness frames are not counted",
+		},
+	})
+	regProp(&propDef{
 		id:   "C15",
 		gen:  func(seed uint64, th bool) *Plan { return genProtoPlan(seed, th) },
 		chk:  newProtoChecker,
